@@ -394,7 +394,17 @@ impl Session {
                     }
                 }
                 out.insert("exit_code".into(), json!(code));
-                std::thread::sleep(std::time::Duration::from_millis(5));
+                // the pipe reader runs on its own thread: wait until the output stops growing
+                let t1 = std::time::Instant::now();
+                let mut last_len = usize::MAX;
+                while t1.elapsed() < std::time::Duration::from_millis(1500) {
+                    std::thread::sleep(std::time::Duration::from_millis(20));
+                    let n = self.out.lock().unwrap().len();
+                    if n == last_len && n > 0 {
+                        break;
+                    }
+                    last_len = n;
+                }
                 out.insert("stdout".into(), json!(String::from_utf8_lossy(&self.out.lock().unwrap()).to_string()));
                 Value::Object(out)
             }
